@@ -238,11 +238,15 @@ func VerifHarness_ModuleChains() {
 		want = "101 202303\n"
 	case 4:
 		// main imports f from a; b (imported for g only) defines its own, unrelated f
-		a := "pub fn f() -> int { return 1; }\nfn main() { }\n"
-		b := "pub fn f() -> int { return 2; }\npub fn g() -> int { return f() * 10; }\nfn main() { }\n"
-		main = "import f from a;\nimport g from b;\nfn main() {\n  println(f(), g());\n}\n"
+		form := errors.VerifNdIntRange("importForm", 0, 2) // single import, first of a list, second of a list
+		bf := errors.VerifNdIntRange("otherIsPub", 0, 1)    // whether b's unrelated f is pub or private
+		errors.VerifTag("case", fmt.Sprintf("form=%d otherIsPub=%d", form, bf))
+		a := "pub fn e() -> int { return 5; }\npub fn f() -> int { return 1; }\nfn main() { }\n"
+		b := []string{"", "pub "}[bf] + "fn f() -> int { return 2; }\npub fn g() -> int { return f() * 10; }\nfn main() { }\n"
+		imp := []string{"import f from a;\nimport e from a;\n", "import { f, e } from a;\n", "import { e, f } from a;\n"}[form]
+		main = imp + "import g from b;\nfn main() {\n  let h = f;\n  println(f(), g(), e(), h());\n}\n"
 		modules = map[string]string{"a": a, "b": b, "main": main}
-		want = "1 20\n"
+		want = "1 20 5 1\n"
 	}
 	var an verifAnalysis
 	panicked, msg := errors.VerifPanics(func() { an = verifAnalyze(main, modules, nil, true) })
